@@ -103,24 +103,61 @@ Theorem C06_round_in_bounds : forall (lo hi : Z) (qs : list Q),
 Proof. exact int_round_bounds. Qed.
 Print Assumptions C06_round_in_bounds.
 
-(** *** MutatorA / MutatorB hill-climb step of NSGA2MutatorA/BSubsetGeneticAlgorithm (known finding
-    C06-mutatorAB-duplicate-members): as coded it writes every drawn allele into every trial chromosome, and
-    does NOT preserve feasibility — witness: 2 of 3 candidates selected, valid tiled draws *)
-Theorem C06_mutatorAB_feasible_refuted : exists (setspace x : list Z) (lociix alleleix : list nat),
+(** *** MutatorA / MutatorB hill-climb step of NSGA2MutatorA/BSubsetGeneticAlgorithm (repaired code: trial row t
+    exchanges locus lociix[t] of the individual for the unused candidate alleles[alleleix[t]]).  Every trial row is a
+    feasible subset, for ALL loci draws and ALL in-range allele draws (repetitions allowed, any number of steps:
+    no guard relating nhcstep to the number of unused candidates) *)
+Theorem C06_mutatorAB_trials_feasible : forall (setspace x : list Z) (k : nat) (lociix alleleix : list nat),
+  feasible setspace k x -> (forall j, In j alleleix -> (j < length (complement setspace x))%nat) ->
+  Forall (feasible setspace k) (mutAB_trials x (complement setspace x) lociix alleleix).
+Proof. intros. now apply mutAB_trials_feasible. Qed.
+Print Assumptions C06_mutatorAB_trials_feasible.
+
+(** ... hence the chromosome returned by MutatorA.hillclimb / MutatorB.hillclimb is feasible for every evaluation
+    function, every draw and every selected row (formerly only [_partial], under NoDup alleleix) *)
+Theorem C06_mutatorAB_feasible : forall (ev : list Z -> evalT) (setspace x : list Z) (k : nat) (lociix alleleix : list nat) (draw : nat),
+  feasible setspace k x -> (forall j, In j alleleix -> (j < length (complement setspace x))%nat) ->
+  feasible setspace k (mutA_hillclimb ev setspace x lociix alleleix draw) /\
+  feasible setspace k (mutB_hillclimb ev setspace x lociix alleleix draw).
+Proof. intros. split; now apply mutAB_hillclimb_feasible. Qed.
+Print Assumptions C06_mutatorAB_feasible.
+
+(** when the subset is the whole candidate set (ndecn = len(decn_space)) nothing can be exchanged and the
+    individual is returned unchanged (formerly: ZeroDivisionError in tiled_choice) *)
+Theorem C06_mutatorAB_full_set : forall (ev : list Z -> evalT) (setspace x : list Z) (lociix alleleix : list nat) (draw : nat),
+  incl setspace x ->
+  mutA_hillclimb ev setspace x lociix alleleix draw = x /\ mutB_hillclimb ev setspace x lociix alleleix draw = x.
+Proof. intros. split; now apply mutAB_hillclimb_full. Qed.
+Print Assumptions C06_mutatorAB_full_set.
+
+(** the row selection is always defined: the non-dominated front of a non-empty trial population is non-empty,
+    and both rules pick a position that belongs to the front and addresses a trial row (MutatorB formerly used
+    positions of the unfiltered population to index the front) *)
+Theorem C06_mutatorAB_selection_defined : forall (F : list (list Z)) (draw : nat), F <> [] ->
+  front_ix F <> [] /\ In (mutB_sel F draw) (front_ix F) /\ (mutB_sel F draw < length F)%nat /\
+  ((draw < length (front_ix F))%nat -> In (mutA_sel F draw) (front_ix F) /\ (mutA_sel F draw < length F)%nat).
+Proof.
+  intros F draw HF. pose proof (front_ix_nonempty F HF) as HN.
+  pose proof (mutB_sel_in_front F draw HN) as HB.
+  split; [exact HN|]. split; [exact HB|]. split; [now apply front_ix_lt|].
+  intros Hd. pose proof (mutA_sel_in_front F draw Hd) as HA. split; [exact HA | now apply front_ix_lt].
+Qed.
+Print Assumptions C06_mutatorAB_selection_defined.
+
+(** regression witness for the repaired defect C06-mutatorAB-duplicate-members: the FORMER code
+    ([old_mutAB_hillclimb]: whole-column assignment) did not preserve feasibility — 2 of 3 candidates selected,
+    valid tiled draws — while the repaired step is feasible on the same input and draws *)
+Theorem C06_old_mutatorAB_feasible_refuted : exists (setspace x : list Z) (lociix alleleix : list nat),
   feasible setspace 2 x /\ NoDup setspace /\
   tiled_ok (length x) (length x) lociix = true /\ tiled_ok (length (complement setspace x)) (length x) alleleix = true /\
-  ~ NoDup (mutAB_hillclimb setspace x lociix alleleix).
-Proof. exact mutAB_refuted. Qed.
-Print Assumptions C06_mutatorAB_feasible_refuted.
-
-(** ... it does under the guard that excludes the failing inputs: pairwise distinct allele draws, i.e. no more
-    hill-climb steps than unused candidates (for the default nhcstep = ndecn: 2*ndecn <= len(decn_space)) *)
-Theorem C06_mutatorAB_feasible_partial : forall (setspace x : list Z) (k : nat) (lociix alleleix : list nat),
-  NoDup setspace -> feasible setspace k x ->
-  NoDup alleleix -> (forall j, In j alleleix -> (j < length (complement setspace x))%nat) ->
-  feasible setspace k (mutAB_hillclimb setspace x lociix alleleix).
-Proof. exact mutAB_partial. Qed.
-Print Assumptions C06_mutatorAB_feasible_partial.
+  ~ NoDup (old_mutAB_hillclimb setspace x lociix alleleix) /\
+  forall sel ev draw, feasible setspace 2 (mutAB_hillclimb sel ev setspace x lociix alleleix draw).
+Proof.
+  exists [0; 1; 2], [0; 1], [0%nat; 1%nat], [0%nat; 0%nat].
+  destruct old_mutAB_refuted_witness as (A & B & C & D & E).
+  repeat (split; [assumption|]). exact new_mutAB_on_old_witness.
+Qed.
+Print Assumptions C06_old_mutatorAB_feasible_refuted.
 
 (** *** the result monitor evaluated in the correspondence shards is sound *)
 Theorem C06_monitor_sound : forall (cand : list Z) (k : nat) (X : list (list Z)) (F : list (list Q)),
@@ -142,10 +179,13 @@ Example C06_hyps_satisfiable :
   /\ sd_minimize ev 16 [5; 1; 4; 2] [0%nat; 2%nat] = Some ([1; 2], [5; 4], ([3], [], []))
   /\ rex_cross [5; 4] [1; 2] [1%nat] = ([5; 2], [1; 4])
   /\ Forall (fun q => (inject_Z 0 <= q)%Q /\ (q <= inject_Z 3)%Q) [(5 # 2)%Q; (1 # 2)%Q]
-  /\ mutAB_hillclimb [5; 1; 4; 2] [5; 4] [1%nat; 0%nat] [0%nat; 1%nat] = [2; 1]
+  /\ mutA_hillclimb ev [5; 1; 4; 2] [5; 4] [1%nat; 0%nat] [0%nat; 1%nat] 1 = [2; 4]
+  /\ mutB_hillclimb ev [5; 1; 4; 2] [5; 4] [1%nat; 0%nat] [0%nat; 1%nat] 0 = [5; 1]
   /\ (forall i, In i [0%nat; 2%nat] -> (i < length [5; 1; 4; 2]%Z)%nat)
   /\ (forall j, In j [0%nat; 1%nat] -> (j < length (complement [5; 1; 4; 2]%Z [5; 4]%Z))%nat)
-  /\ (length [5; 1; 4; 2]%Z ^ 2 <= 16)%nat.
+  /\ (length [5; 1; 4; 2]%Z ^ 2 <= 16)%nat
+  /\ incl [5; 1] [1; 5] /\ mutA_hillclimb ev [5; 1] [1; 5] [] [] 0 = [1; 5]
+  /\ [[6]; [6]] <> (@nil (list Z)) /\ front_ix [[6]; [6]] = [0%nat; 1%nat].
 Proof.
   cbn zeta.
   assert (N4 : NoDup [5; 1; 4; 2]) by (repeat (constructor; [cbn; intuition lia|]); constructor).
@@ -155,6 +195,7 @@ Proof.
   split; [apply feasible_b_spec; reflexivity|].
   split; [intros x; now rewrite map_id|].
   split; [reflexivity|]. split; [reflexivity|]. split; [reflexivity|].
-  split; [repeat constructor; cbn; discriminate|]. split; [reflexivity|].
-  split; [intros i Hi; cbn in *; intuition lia|]. split; [intros j Hj; cbn in *; intuition lia|]. cbn; lia.
+  split; [repeat constructor; cbn; discriminate|]. split; [reflexivity|]. split; [reflexivity|].
+  split; [intros i Hi; cbn in *; intuition lia|]. split; [intros j Hj; cbn in *; intuition lia|]. split; [cbn; lia|].
+  split; [intros z Hz; cbn in *; intuition lia|]. split; [reflexivity|]. split; [discriminate | reflexivity].
 Qed.
